@@ -26,9 +26,17 @@ func c08cPerm(u *user.User, filePath, permissionType string) bool {
 	return strings.HasPrefix(filePath, "/var/log/public/")
 }
 
-// the glob matches one allowed and one denied file
+// the glob matches one allowed file and one or two denied files, before and/or
+// after it in filepath.Glob's sorted result
+var c08cMatches = [][]string{
+	{"/var/log/public/a.log", "/var/log/secret/a.log"},
+	{"/var/log/audit/a.log", "/var/log/public/a.log"},
+	{"/var/log/audit/a.log", "/var/log/public/a.log", "/var/log/secret/a.log"},
+}
+var c08cMatch int
+
 func c08cGlob(pattern string) ([]string, error) {
-	return []string{"/var/log/public/a.log", "/var/log/secret/a.log"}, nil
+	return append([]string(nil), c08cMatches[c08cMatch]...), nil
 }
 
 // for C08d (serverless connector): the glob is the path itself; what was opened is exported
@@ -49,6 +57,7 @@ func VerifC08Reads() []string {
 func VerifC08cSession(mode int) {
 	dlog.VerifInstall(source.Server)
 	c08bReads, c08cAsked = nil, nil
+	c08cMatch = verifrt.Choose("glob-matches", len(c08cMatches))
 	h := VerifNewServerHandler(false, false, false, 2, 2)
 	word := []string{"cat", "grep", "tail"}[mode]
 	opts := ""
